@@ -1188,6 +1188,9 @@ func (ex *Exec) builtin(b *ssa.Builtin, args []Value) Value {
 			if x == nil {
 				return Const(64, 0)
 			}
+			if ex.sh.raceCheck && ex.gor != nil {
+				ex.raceAccess(ex.racePseudo(x, "map"), nil, false, false, token.NoPos)
+			}
 			return Const(64, uint64(len(x.keys)))
 		case *ChanV:
 			if x == nil {
